@@ -24,6 +24,7 @@ inductive V
   | s (x : Str)
   | d (kv : List (Str × Str))
   | t (x : Option (List Int))        -- a `*_parsed` value: the time tuple `_parse_date` returned, or None
+  | det (kv : List (Str × Option Str)) -- a `*_detail` dict: contentparams (type, language — may be None —, base) + value
 deriving DecidableEq, Repr
 
 /-- insertion-ordered dict -/
@@ -50,6 +51,14 @@ structure Entry where
   depths : List (Str × Int) := []     -- property_depth_map[entry]
 deriving DecidableEq, Repr
 
+/-- `contentparams` while a text construct is open (mixin.py `push_content`) -/
+structure CP where
+  type : Str
+  lang : Option String
+  base : String
+  base64 : Bool
+deriving DecidableEq, Repr
+
 /-- everything but the element stack -/
 structure Core where
   feed : D := []
@@ -61,6 +70,9 @@ structure Core where
   inentry : Bool := false
   depth : Int := 0
   base : Base.St := ⟨"", none, [], []⟩
+  incontent : Bool := false           -- stage 2: a text construct is open (`self.incontent`, 0 or 1 in the model's domain)
+  cp : Option CP := none              -- `self.contentparams` (none = the empty dict)
+  titleDepth : Int := -1              -- `self.title_depth`
 deriving Repr
 
 structure MSt where
@@ -81,6 +93,14 @@ structure Ops where
   fix : Str → Str                 -- iso-8859-1→utf-8 re-decode heuristic, then windows-1252 translate
   loose : Bool                    -- which back end's _normalize_attributes
   parseDate : Str → Option (List Int) := fun _ => none     -- `_parse_date` on a non-empty string (M-date, C09)
+  -- stage 2 (text constructs): the post-processing steps of `pop()` are parameters
+  looksHtml : Str → Bool := fun _ => false                 -- `looks_like_html`
+  resolveMarkup : Str → Str → Str → Str := fun _ _ x => x  -- `resolve_relative_uris(output, baseuri, enc, type)` as base, type, text (M-san's resolver, C05 / C13)
+  sanitize : Str → Str → Str := fun _ x => x               -- `sanitize_html(output, enc, type)` as type, text (M-san, C03)
+  b64 : Str → Option Str := fun _ => none                  -- `base64.decodebytes(...).decode("utf8")`, none when it raises
+  decodeEnt : Str → Str → Str := fun _ x => x              -- the back end's `decode_entities` as type-or-"xml", text (identity for the strict one)
+  resolveOn : Bool := true                                 -- `self.resolve_relative_uris` (the effective per-call option, C18)
+  sanitizeOn : Bool := true                                -- `self.sanitize_html`
 
 inductive Outcome
   | ok (s : MSt)
@@ -115,6 +135,16 @@ def canBeRelativeUri : List Str := Gen.Mixin.canBeRelativeUriL
 `self.push(K, 1)` and `_end_X` is `value = self.pop(K); self._save(K_parsed, _parse_date(value), overwrite=True)`
 (directly, through an alias, or through a one-line delegation).  handler name ↦ (K, K_parsed) -/
 def dateKey (h : Str) : Option (Str × Str) := (Gen.Mixin.dateElementsL.find? (·.1 == h)).map (·.2)
+/-- "plain text-construct elements", recognised by the translator FROM THE SOURCE of their handlers: `_start_X` is
+`self.push_content(K, attrs_d, T, 1)` and `_end_X` is `self.pop_content(K)` (directly, through an alias, or through a one-line
+delegation).  handler name ↦ (K, default content type T) -/
+def contentKey (h : Str) : Option (Str × Str) := (Gen.Mixin.contentElementsL.find? (·.1 == h)).map (·.2)
+/-- the `title` handlers are modelled by hand; the translator lists the handler names that reach `_start_title` / `_end_title`
+(directly or through a one-line delegation) and lists NONE when the source of those two no longer has the modelled shape -/
+def isTitle (h : Str) : Bool := Gen.Mixin.titleHandlersL.any (· == h)
+def canContainRelativeUris : List Str := Gen.Mixin.canContainRelativeUrisL
+def canContainDangerous : List Str := Gen.Mixin.canContainDangerousMarkupL
+def htmlTypes : List Str := Gen.Mixin.htmlTypesL
 def keymap : Dict.Keymap := Dict.keymap
 
 /-- `FeedParserDict.__setitem__` key aliasing -/
@@ -205,6 +235,82 @@ def popValue (o : Ops) (s : MSt) (element : Str) : Option Str :=
 
 def push (s : MSt) (name : Str) (expecting : Bool) : MSt := { s with stack := ⟨name, expecting, []⟩ :: s.stack }
 
+/-! ### stage 2: text constructs — `push_content`, `pop_content`, and `pop()` with content parameters (mixin.py:485-690) -/
+
+def XHTML : Str := S "application/xhtml+xml"
+
+/-- `map_content_type` -/
+def mapContentType (t : Str) : Str :=
+  let l := lowerS t
+  if l == S "text" || l == S "plain" then S "text/plain" else if l == S "html" then S "text/html" else if l == S "xhtml" then XHTML else l
+
+def endsWith (suf x : Str) : Bool := suf.reverse.isPrefixOf x.reverse
+
+/-- `_is_base64` -/
+def isBase64 (attrsD : List (Str × Str)) (ty : Str) : Bool :=
+  if (sget attrsD (S "mode")).getD [] == S "base64" then true
+  else if (S "text/").isPrefixOf ty then false else if endsWith (S "+xml") ty then false else if endsWith (S "/xml") ty then false else true
+
+/-- `push_content(tag, attrs_d, default_content_type, expecting_text)`: the new core and the element to push -/
+def pushContent (c : Core) (tag : Str) (attrsD : List (Str × Str)) (defType : Str) (expecting : Bool) : Core × Elem :=
+  let lang' : Option String := c.base.lang.map fun l => String.ofList (replaceAll ['_'] ['-'] l.toList)
+  let ty := mapContentType ((sget attrsD (S "type")).getD defType)
+  let cp : CP := { type := ty, lang := lang', base := c.base.baseuri, base64 := isBase64 attrsD ty }
+  ({ c with incontent := true, cp := some cp, base := { c.base with lang := lang' } }, ⟨tag, expecting, []⟩)
+
+/-- the `*_detail` value: the remaining content parameters plus the value -/
+def detailOf (cp : Option CP) (ty : Option Str) (out : Str) : V :=
+  match cp with
+  | some p => .det [(S "type", ty), (S "language", p.lang.map String.toList), (S "base", some p.base.toList), (S "value", some out)]
+  | none => .det [(S "value", some out)]
+
+/-- what `pop(element)` computes for an element with content parameters: base64, element-level URI, entity decoding, the
+plain-text-or-HTML guess of the non-Atom formats, relative-URI resolution and sanitisation of embedded markup (each under its
+option and its element table), the text repairs.  Returns the final content type and the output. -/
+def contentOutput (o : Ops) (c : Core) (element : Str) (out0 : Str) : Option Str × Str :=
+  let b64 := match c.cp with | some p => p.base64 | none => false
+  let out1 := if b64 then (o.b64 out0).getD out0 else out0
+  let out2 := if canBeRelativeUri.contains element && !out1.isEmpty && element != S "id" then o.join c.base.baseuri.toList out1 else out1
+  let ty0 : Option Str := c.cp.map (·.type)
+  let out3 := if b64 then out2 else o.decodeEnt (ty0.getD (S "xml")) out2
+  let ty1 : Option Str := if !(S "atom").isPrefixOf c.version && ty0 == some (S "text/plain") && o.looksHtml out3 then some (S "text/html") else ty0
+  let tyv := ty1.getD (S "text/html")
+  let htmlish := htmlTypes.contains (mapContentType tyv)
+  let out4 := if htmlish && o.resolveOn && canContainRelativeUris.contains element then o.resolveMarkup c.base.baseuri.toList tyv out3 else out3
+  let out5 := if htmlish && o.sanitizeOn && canContainDangerous.contains element then o.sanitize tyv out4 else out4
+  (ty1, o.fix out5)
+
+/-- `pop(element)` for the open text construct: the returned value (None on an empty / mismatched stack) and the new state -/
+def popFull (o : Ops) (s : MSt) (element : Str) : Option Str × MSt :=
+  match s.stack with
+  | [] => (none, s)
+  | top :: rest =>
+    if top.name != element then (none, s) else
+    let c := s.c
+    let out0 := stripS top.pieces.flatten
+    if !top.expecting then (some out0, ⟨c, rest⟩) else
+    let r := contentOutput o c element out0
+    let out := r.2
+    if element == S "category" || element == S "tags" || element == S "itunes_keywords" then (some out, ⟨c, rest⟩) else
+    if element == S "title" && (-1 < c.titleDepth && c.titleDepth ≤ c.depth) then (some out, ⟨c, rest⟩) else
+    let detail := detailOf c.cp r.1 out
+    if c.inentry then
+      let el := if element == S "description" then S "summary" else element
+      let es1 := updHead (writeEntry el out c.depth) c.entries
+      let es2 := if c.incontent then updHead (fun e => { e with d := fset e.d (el ++ S "_detail") detail }) es1 else es1
+      (some out, ⟨{ c with entries := es2 }, rest⟩)
+    else if c.infeed then
+      let el := if element == S "description" then S "subtitle" else element
+      let f1 := fset c.feed el (.s out)
+      let f2 := if c.incontent then fset f1 (el ++ S "_detail") detail else f1
+      (some out, ⟨{ c with feed := f2 }, rest⟩)
+    else (some out, ⟨c, rest⟩)
+
+/-- `pop_content(tag)`: pop, leave the text construct, forget the content parameters -/
+def popContent (o : Ops) (s : MSt) (k : Str) : Option Str × MSt :=
+  let r := popFull o s k
+  (r.1, ⟨{ r.2.c with incontent := false, cp := none }, r.2.stack⟩)
+
 /-! ### unknown_starttag / unknown_endtag / handle_data -/
 
 def toBaseStr (x : Str) : String := String.ofList x
@@ -230,6 +336,12 @@ def startPre (o : Ops) (s0 : Core) (tag : Str) (attrs0 : List (Str × Str)) : Co
 def dropDecls (attrsD : List (Str × Str)) : List (Str × Str) :=
   attrsD.filter fun kv => !(kv.1 == S "xmlns" || (S "xmlns:").isPrefixOf kv.1)
 
+/-- a start handler that is `push_content(…)`; XHTML-typed constructs (whose character data is escaped and whose child elements are
+re-serialised) are outside the model's domain -/
+def startContent (s3 : Core) (k : Str) (attrsD : List (Str × Str)) (ty : Str) (expecting : Bool) : Except Str (Core × Option Elem) :=
+  if (pushContent s3 k attrsD ty expecting).1.cp.map (·.type) == some XHTML then .error (S "inline XHTML content")
+  else .ok ((pushContent s3 k attrsD ty expecting).1, some (pushContent s3 k attrsD ty expecting).2)
+
 /-- the dispatch of `unknown_starttag` on the stack-free part of the state: structural handler, other
 handler (outside the model), or the fallback for elements without a handler (mixin.py:305-320).
 Returns the new core and the element to push, if any. -/
@@ -250,7 +362,7 @@ def dispatchCore (s3 : Core) (h : Str) (attrsD : List (Str × Str)) : Except Str
         ({ s3 with infeed := true, version := v }, none) else ({ s3 with infeed := true }, none))
     else
       -- _start_item
-      let s5 : Core := { s3 with entries := {} :: s3.entries, inentry := true }
+      let s5 : Core := { s3 with entries := {} :: s3.entries, inentry := true, titleDepth := -1 }
       let s6 := match getAttribute s5 attrsD (S "rdf:about") with
         | some id => if id.isEmpty then s5 else setContext s5 (S "id") (.s id)
         | none => s5
@@ -258,7 +370,15 @@ def dispatchCore (s3 : Core) (h : Str) (attrsD : List (Str × Str)) : Except Str
   else if (dateKey h).isSome then
     -- a simple date element: `self.push(K, 1)` whatever the attributes
     .ok (s3, (dateKey h).map fun k => ⟨k.1, true, []⟩)
-  else if hasStart h then .error (S "handler _start_" ++ h)
+  else if isTitle h then
+    -- `_start_title` (svgOK = 0 in the model's domain: no markup inside text constructs)
+    startContent s3 (S "title") attrsD (S "text/plain") (s3.infeed || s3.inentry)
+  else match contentKey h with
+  | some (k, ty) =>
+    -- a plain text-construct element: `self.push_content(K, attrs_d, T, 1)`
+    startContent s3 k attrsD ty true
+  | none =>
+  if hasStart h then .error (S "handler _start_" ++ h)
   else
     -- fallback: no handler (namespace declarations do not count as attributes)
     let a := dropDecls attrsD
@@ -270,14 +390,37 @@ def applyDispatch (stack : List Elem) : Except Str (Core × Option Elem) → Out
   | .ok (c, none) => .ok ⟨c, stack⟩
   | .error w => .unmodelled w
 
-def startTag (o : Ops) (s0 : MSt) (tag : Str) (attrs0 : List (Str × Str)) : Outcome :=
+def startTag0 (o : Ops) (s0 : MSt) (tag : Str) (attrs0 : List (Str × Str)) : Outcome :=
   let r := startPre o s0.c tag attrs0
   applyDispatch s0.stack (dispatchCore r.1 (handlerName r.1 tag) r.2)
+
+/-- inside a text construct a start tag is re-serialised into the content (inline markup) instead of being dispatched: outside
+the model's domain -/
+def startTag (o : Ops) (s0 : MSt) (tag : Str) (attrs0 : List (Str × Str)) : Outcome :=
+  if s0.c.incontent then .unmodelled (S "markup inside a text construct") else startTag0 o s0 tag attrs0
 
 /-- the core-only effects of `unknown_endtag` after the handler / pop: leave the base / language scope, depth -/
 def endFinish (o : Ops) (c : Core) : Core := { c with base := Base.step o.base c.base .stop, depth := c.depth - 1 }
 
-def endTag (o : Ops) (s0 : MSt) (tag : Str) : Outcome :=
+/-- the key a text-construct end handler pops: `title` (hand-modelled) or a table element -/
+def contentEndKey (h : Str) : Option Str :=
+  if isTitle h then some (S "title") else (contentKey h).map (·.1)
+
+/-- `_end_title` after its `pop_content`: `if not value: return`, else `self.title_depth = self.depth` (other text constructs: nothing) -/
+def afterTitle (k : Str) (r : Option Str × MSt) : Core :=
+  if k == S "title" then (match r.1 with
+    | some v => if v.isEmpty then r.2.c else { r.2.c with titleDepth := r.2.c.depth }
+    | none => r.2.c) else r.2.c
+
+/-- the end tag of the open text construct (`incontent`): only ITS OWN end tag is in the model's domain -/
+def endContent (o : Ops) (s0 : MSt) (h : Str) : Outcome :=
+  match contentEndKey h, s0.stack with
+  | some k, top :: _ =>
+    if top.name != k then .unmodelled (S "end tag of another element inside a text construct") else
+    .ok ⟨endFinish o (afterTitle k (popContent o s0 k)), (popContent o s0 k).2.stack⟩
+  | _, _ => .unmodelled (S "end tag of another element inside a text construct")
+
+def endTag0 (o : Ops) (s0 : MSt) (tag : Str) : Outcome :=
   let h := handlerName s0.c tag
   if h == S "channel" || h == S "feed" then .ok ⟨endFinish o { s0.c with infeed := false }, s0.stack⟩
   else if h == S "item" || h == S "entry" then
@@ -296,6 +439,11 @@ def endTag (o : Ops) (s0 : MSt) (tag : Str) : Outcome :=
   else
     let s1 := pop o s0 h
     .ok ⟨endFinish o s1.c, s1.stack⟩
+
+def endTag (o : Ops) (s0 : MSt) (tag : Str) : Outcome :=
+  if s0.c.incontent then endContent o s0 (handlerName s0.c tag)
+  else if (contentEndKey (handlerName s0.c tag)).isSome then .unmodelled (S "stray end tag of a text construct")
+  else endTag0 o s0 tag
 
 def handleData (s : MSt) (text : Str) : MSt :=
   match s.stack with
